@@ -447,10 +447,25 @@ def always_on(h: History, program: Any, fs: dict[str, Any], quiescent: bool,
 def stale_applications(h: History) -> list[dict[str, Any]]:
     """Status changes made while handling a message that was queued *before* the affected stage was
     last re-armed (jump / restart) -- i.e. an instruction of iteration i acting on iteration i+1."""
+    import json as _json
+
     created: dict[str, int] = {}
+    stage_of: dict[str, str] = {}
     for r in h.audit:
         if r["kind"] == "q_ins":
             created[r["row_id"]] = r["seq"]
+            try:
+                stage_of[r["row_id"]] = _json.loads((r["extra"] or {}).get("payload") or "{}").get("stage_id") or ""
+            except Exception:
+                stage_of[r["row_id"]] = ""
+            # a message queued while handling an older message *about the same stage (or its parent / child)* is as old
+            # as that one: ContinueParentStage of iteration i spawns StartTask, which acts on iteration i+1
+            pm = ctx_msgid(r["ctx"])
+            if pm and pm in created and pm != r["row_id"]:
+                a, b = stage_of.get(pm, ""), stage_of[r["row_id"]]
+                rel = a and b and (a == b or (h.stage_info.get(a) or {}).get("parent") == b or (h.stage_info.get(b) or {}).get("parent") == a)
+                if rel and ctx_handler(r["ctx"]) not in REARM_HANDLERS:
+                    created[r["row_id"]] = min(created[r["row_id"]], created[pm])
     rearm: dict[str, list[int]] = {}
     out = []
     for r in h.audit:
